@@ -72,7 +72,7 @@ def correspond(ctx):
     ctx.corr_cases = cases
     for e in res["errors"]:
         ctx.problem("correspondence", "harness could not build a case", json.dumps(e)[:500])
-    groups = E.chunks(cases, 5)
+    groups = E.chunks(cases, 13 if ctx.tier != "thorough" else 20)
     outs = E.run_parallel(ctx, [cases_body(g) for g in groups], "c04cases", timeout=1200, workers=6)
     ctx.note("correspondence harness + model evaluation wall %.0fs" % (time.time() - t0))
     hist = {}
